@@ -275,6 +275,21 @@ class SourceView:
         return out
 
 
+def _root_from_code(code, sv):
+    try:
+        tree = ast.parse(code)
+    except SyntaxError:
+        return None
+    for node in ast.walk(tree):
+        if isinstance(node, ast.Call) and isinstance(node.func, ast.Attribute) and node.func.attr == 'FunctionScope' \
+                and node.args and isinstance(node.args[0], ast.Constant) and node.args[0].value in sv.toplevel:
+            return node.args[0].value
+    for node in ast.walk(tree):
+        if isinstance(node, ast.FunctionDef) and node.name.startswith('ag__') and node.name[4:] in sv.toplevel:
+            return node.name[4:]
+    return None
+
+
 def expected_units(U0, fn_conv, toplevel):
     """Group the user frames of the unconverted traceback (outermost first) into activations of
     module-level functions (nested defs / lambdas belong to the activation that contains them) and say
@@ -393,6 +408,10 @@ def _analyse(built, path, obs, out, want_corr):
                 r = sv.root_of(v.loc.lineno)
                 roots[r] = roots.get(r, 0) + 1
         cv['root'] = max(roots, key=roots.get) if roots else None
+        if cv['root'] is None:
+            # no usable entry: fall back on the function name the generated code itself records
+            # (`with ag__.FunctionScope('<name>', ...)`, else the `ag__<name>` def)
+            cv['root'] = _root_from_code(cv['code'], sv)
         conv_roots[cv['root']] = cv
     entry_root = built['entry']
     if entry_root not in conv_roots:
